@@ -12,4 +12,6 @@ for d in sorted(glob.glob(os.path.join(VERIF, "seeded", "*", ""))):
     m = json.load(open(d + "meta.json"))
     files = sorted(set(re.findall(r"^\+\+\+ b/(\S+)", open(d + "patch.diff").read(), re.M)))
     needs = m.get("needs", "")
+    if m.get("history"):
+        needs += " -- " + m["history"]
     print(f"| {m['name']} | {', '.join('`%s`' % f for f in files)} | {needs} | {', '.join(m['caught_by']) or '**NOT CAUGHT**'} |")
